@@ -3,13 +3,14 @@
   answers, for an index freshly built from the written content.
 -/
 import Influx.Lemmas.TsmSpecLookup
+import Influx.Lemmas.TsmSpecTime
 
 namespace Influx.Tsm
 open Influx.Spec.C08 Influx.Generated.TsmLayout
 
 def isLookup : Op → Bool
   | .keycount | .keyat _ | .key _ | .seek _ | .contains _ | .entries _ | .typ _ | .keyrange
-  | .containsvalue .. => true
+  | .containsvalue .. | .timerange | .overlapstime .. => true
   | _ => false
 
 structure LCtx (c : List SKey) (kes : List KeyEntry) : Prop where
@@ -17,6 +18,7 @@ structure LCtx (c : List SKey) (kes : List KeyEntry) : Prop where
   sorted : c.Pairwise fun a b => klt a.key b.key = true
   ne : ∀ sk ∈ c, sk.blocks ≠ []
   nonempty : c ≠ []
+  time : TimeOK c
 
 structure SSt (sp : SS) (c : List SKey) : Prop where
   content : sp.content = some c
@@ -196,6 +198,21 @@ theorem lookup_step (s : State) (sp : SS) (i : Nat) (op : Op) (hop : isLookup op
       cases hl : (a :: l).getLast? with
       | none => simp at hl
       | some z => simp [toKE]
+  case timerange =>
+    obtain ⟨t1, t2⟩ := timerange_rel c hc.time hc.nonempty
+    rw [hc.rel] at t1 t2
+    simp only [step, hr, hix, stepS, hcont, habs, hopen, hpend, Option.isSome_none, Bool.false_eq_true,
+      if_false, judgeRead, hreqs, t1, t2]
+    refine ⟨trivial, ?_⟩
+    simp [mkIndex]
+  case overlapstime lo hi =>
+    obtain ⟨t1, t2⟩ := timerange_rel c hc.time hc.nonempty
+    rw [hc.rel] at t1 t2
+    simp only [step, hr, hix, stepS, hcont, habs, hopen, hpend, Option.isSome_none, Bool.false_eq_true,
+      if_false, judgeRead, hreqs, t1, t2]
+    refine ⟨trivial, ?_⟩
+    simp only [mkIndex, overlapsTimeRange]
+    intro h; exact absurd rfl h
   case containsvalue k t =>
     simp only [step, hr, hix, stepS, hcont, habs, hopen, hpend, Option.isSome_none, Bool.false_eq_true,
       if_false, judgeRead, hreqs]
